@@ -453,6 +453,36 @@ func (m *Model) callFn(chunk, name, argText string) (any, error) {
 			return nil, fail(id + ".FnE failed")
 		}
 		return id + ".FnE(" + renderArgs(args) + ")", nil
+	case "FnTyped":
+		// (int64, float64, uint8, string, ...float32): literals arrive converted to the parameter types
+		if len(args) < 4 {
+			return nil, &MUnspec{"FnTyped arity"}
+		}
+		num := func(v any) (float64, bool, bool) { // value, is a number, is an integer literal
+			switch x := v.(type) {
+			case int:
+				return float64(x), true, true
+			case float64:
+				return x, true, false
+			}
+			return 0, false, false
+		}
+		a, okA, intA := num(args[0])
+		b, okB, _ := num(args[1])
+		c, okC, intC := num(args[2])
+		str, okS := args[3].(string)
+		if !okA || !intA || !okB || !okC || !intC || c < 0 || c > 255 || !okS {
+			return nil, &MUnspec{"FnTyped argument types"}
+		}
+		conv := []any{int64(a), b, uint8(c), str}
+		for _, r := range args[4:] {
+			f, ok, _ := num(r)
+			if !ok {
+				return nil, &MUnspec{"FnTyped variadic argument type"}
+			}
+			conv = append(conv, float32(f))
+		}
+		return id + ".FnTyped(" + renderArgs(conv) + ")", nil
 	case "FnObj":
 		m.count(id + ".FnObj") // mk counts under the same key
 		return &MObj{ID: m.fresh(), Ty: "*" + id + ".Obj", Ctor: "FnObj", Args: args}, nil
@@ -762,7 +792,9 @@ func (m *Model) value(expr string) (any, error) {
 			o.Ty = "*" + ty
 			o.ID = m.fresh()
 		}
-		// *Val describes itself like Val (value receiver): no identity, same type name
+		if r.Ptr == "&" && r.Name == "Val" {
+			o.Ty = "*" + ty // no identity of its own (Val describes itself by value), but a pointer is not a copy
+		}
 		return o, nil
 	}
 	if len(r.Chain) == 0 {
@@ -775,7 +807,9 @@ func (m *Model) value(expr string) (any, error) {
 		case "VarVal":
 			g := m.global(id, "VarVal")
 			if r.Ptr == "&" {
-				return nil, &MUnspec{"&VarVal not modelled"}
+				p := *g
+				p.Ty = "*" + g.Ty
+				return &p, nil
 			}
 			return g, nil
 		case "Const":
